@@ -6,7 +6,8 @@ Cases: UtU well-conditioned (symmetric, and non-symmetric so that the transposes
 l2_square_reg (parameter 0 = falsy = no constraint), n_iter_max 0-4, tol in {default, 0, negative, .5, placed 25% above / 20% below
 the ratios observed at a chosen iteration by probe runs}.  Predicates: (a) C13_admm_unconstrained_bound: with n_const given, no
 constraint, dual_var = 0, every row of the returned x is within (rho / (mu + rho))^n of the least-squares solution and the dual
-variable is still zero; (b) C13_admm_returns: the documented stand-alone call (n_const = 1, order left at its default) returns."""
+variable is still zero; (b) C13_admm_returns: every call with n_iter_max >= 1 that proximal_operator accepts returns, in particular the
+documented stand-alone call (n_const = 1, order left at its default: repaired by a5b9e5b); n_iter_max = 0 raises (known finding admm_zero_iterations)."""
 import numpy as np
 from harness import common as C
 
@@ -19,10 +20,10 @@ def optnat(v):
     return "None" if v is None else f"(Some {int(v)}%nat)"
 
 
-def clf_admm_order_none(f):
-    """admm called with a number of constraints (n_const not None) and `order` left at its default None raises TypeError"""
+def clf_admm_zero_iterations(f):
+    """admm called with n_iter_max = 0 raises UnboundLocalError (x_split is never bound)"""
     inp = f.get("inputs") or {}
-    return bool(inp.get("admm_call")) and inp.get("n_const") is not None and inp.get("order") is None and "TypeError" in str(f.get("message", ""))
+    return bool(inp.get("admm_call")) and inp.get("n_iter_max") == 0 and "UnboundLocalError" in str(f.get("message", ""))
 
 
 def call_admm(admm, UtM, G, x, dual, n_const, order, kind, par, iters, tol):
@@ -90,10 +91,11 @@ def run_cases(chk, rng, count, admm, add_case, gen_problem, dyadic_start, impl_c
         chk.count(key=("admm_loop", r, m, n_const, order, kind, par > 0, iters, tol_kind), nontrivial=r * m > 1 and iters > 1)
         chk.hist("solver", "admm(whole function)/" + KIND_NAME[kind])
         ok = st == "ok" and all(np.all(np.isfinite(np.asarray(a, dtype=float))) for a in out)
-        if st != "ok" and n_const is not None and order is None and iters >= 1:
-            # C13_admm_returns_partial excludes exactly this call; the docstring recommends it (n_const = 1, order : Default None)
-            chk.finding(EP_ADMM, inp, f"admm(n_const={n_const}, {KIND_NAME[kind]}) with `order` at its default None raised: {out}", "C13_admm_returns")
-        elif st != "ok" and iters >= 1 and (n_const is None or (order is not None and order < n_const)):
+        eo = 0 if order is None else order           # repaired code (a5b9e5b): order = None selects mode 0
+        if st != "ok" and iters == 0:
+            # C13_admm_returns_partial excludes exactly this call (n_iter_max = 0: x_split is never bound)
+            chk.finding(EP_ADMM, inp, f"admm(n_iter_max=0) raised: {out}", "C13_admm_returns")
+        elif st != "ok" and (n_const is None or eo < n_const):
             chk.finding(EP_ADMM, inp, f"admm raised although proximal_operator accepts (n_const, order): {out}", "C13_admm_returns")
         if ok:
             xo, xs, dv = [np.asarray(a, dtype=float) for a in out]
@@ -235,3 +237,47 @@ def replay(payload, admm):
         msg = f"raised {out}" if st != "ok" else None
     print("replay admm (whole function):", msg or "holds")
     return 1 if msg else 0
+
+
+# ----------------------------------------------------------------------------- active_set_nnls: the `except:` path
+def run_aset_fallback(chk, rng, count, active_set_nnls, add_case, impl_call, vec_lit, mat_lit, Skip, EP_AS):
+    """active_set_nnls on SEMIDEFINITE problems with an exactly singular 2 x 2 block c * u u^T (u, c powers of two, so numpy's LU meets an exact
+    zero pivot and tl.solve raises) next to a positive diagonal: warm starts with both block coordinates passive take the `except:` path at
+    once, cold starts reach it later.  Model (exact elimination returns None on the singular block) vs implementation (CAset); predicate:
+    the returned vector is >= 0 (C13_active_set_nonneg allows a raising tl.solve).  KKT of the result is recorded, not demanded: the
+    property is about well-conditioned problems and termination is proved for positive definite UtU only."""
+    for t in range(count):
+        r = rng.randint(2, 4)
+        u = [rng.choice([1.0, 2.0, 4.0]) for _ in range(2)]; c = rng.choice([0.5, 1.0, 2.0])
+        pos = rng.sample(range(r), 2)
+        G = np.diag([rng.choice([1.0, 2.0, 4.0]) for _ in range(r)])
+        for a_, ia in enumerate(pos):
+            for b_, ib in enumerate(pos):
+                G[ia, ib] = c * u[a_] * u[b_]
+        # (no exact zero in Utm: a passive coordinate with x = s = 0 makes the code compute 0/0 = NaN -- NaN is not modelled; observed on
+        #  this semidefinite class: UtU=[[32,0,32],[0,4,0],[32,0,32]], Utm=(5.5,0,5.5), x0=(3,.25,1.25) returns (0,0,0), not KKT; outside the property)
+        b = np.array([rng.choice([v for v in range(-12, 25) if v != 0]) / 4 for _ in range(r)], dtype=float)
+        warm = rng.random() < 0.7
+        x0 = None
+        if warm:
+            x0 = np.array([rng.randint(0, 12) / 4 for _ in range(r)], dtype=float)
+            for i in pos:
+                x0[i] = rng.randint(1, 12) / 4          # both coordinates of the singular block passive
+        try:
+            st, x = impl_call(chk, lambda: active_set_nnls(b.copy(), G.copy(), x=None if x0 is None else x0.copy()))
+        except Skip:
+            continue
+        inp = {"Utm": b, "UtU": G, "x0": x0, "n_iter_max": 100, "tol": 10e-8, "semidefinite": True}
+        chk.count(key=("aset_fallback", r, warm, tuple(pos)), nontrivial=True)
+        ok = st == "ok" and bool(np.all(np.isfinite(np.asarray(x, dtype=float))))
+        chk.hist("active_set_fallback", ("warm" if warm else "cold") + ("/returns" if ok else "/raises"))
+        if ok:
+            x = np.asarray(x, dtype=float)
+            if float(np.min(x)) < 0:
+                chk.finding(EP_AS, inp, "active_set_nnls returned a negative entry on a semidefinite problem (except: path)", "C13_active_set_nonneg", observed=x)
+            g = b - G @ x; sc = 1 + float(np.max(np.abs(b)))
+            kkt = bool(np.all(np.abs(g[x > 0]) <= 1e-6 * sc)) and bool(np.all(g[x <= 0] <= 10e-8 + 1e-6 * sc))
+            chk.hist("active_set_fallback_kkt", "holds" if kkt else "does not hold (recorded, not demanded)")
+        impl = f"(Some {vec_lit(x)})" if ok else "None"
+        x0l = "None" if x0 is None else f"(Some {vec_lit(x0)})"
+        add_case(lambda cid: f"(CAset {cid}%nat {vec_lit(b)} {mat_lit(G)} {x0l} 100%nat {C.q(10e-8)} {impl})", ("aset_fallback", r, warm, st))
